@@ -54,6 +54,8 @@ pub struct Run {
     #[serde(default)]
     pub t0_secs: i64,
     #[serde(default)]
+    pub t0_nanos: u32,
+    #[serde(default)]
     pub lags: Vec<u64>,
     pub cmds: Vec<Value>,
     #[serde(default)]
@@ -418,7 +420,7 @@ struct World {
 }
 
 fn build(bench: &Bench, run: &Run, out: &mut dyn Write) -> World {
-    let t0 = MonotonicTime::new(run.t0_secs, 0).unwrap();
+    let t0 = MonotonicTime::new(run.t0_secs, run.t0_nanos).unwrap();
     let sh = Arc::new(Shared {
         counters: Arc::new(Counters::default()),
         log: Mutex::new(Vec::new()),
